@@ -6,8 +6,12 @@ from props import gxcommon as G
 def run(tier, seed):
     res = fx_obligations.c17_fx(tier)
     # parentheses influence grouping only: `( expression )` returns the inner value itself
-    res.add(G.gx(["_parse_primary_expression", "_parse_postfix_expression", "_parse_unary_expression", "_parse_cast_expression"],
-                 ["accept", "term"], "C17/gx", tier))
+    # (a redundant pair of parentheses around ANY operand must not change the tree: every expression method returns the tree
+    # the grammar assigns, so that `a ? x : b ? y : z` and `a ? x : (b ? y : z)` are the same tree)
+    res.add(G.gx(G.EXPR_METHODS, ["accept", "term", "concrete"], "C17/gx", tier))
+    from pyvc.smt_props import run_functions as _rf
+    import contracts.expr as _E
+    res.add(_rf(_E.FUNCTIONS, "C17/smt", tier))
     try:
         from pyvc.smt_props import run_functions
         import contracts.lexer as LX
